@@ -654,6 +654,12 @@ def config_list(pk, L, prop='C09'):
                 out.append((c + '.' + how, cls, how, None))
             if pk.tag == 'torch':
                 out.append((c + '.copy-compiled-by-hand', cls, 'copy-compiled-by-hand', None))
+        if L >= 1:
+            # history: compile a prefix, take the remaining gates (they may slide back into compiled layers), compile again
+            for k in (range(L) if prop == 'C09' else (L // 2,)):
+                out.append((c + '.compile-extend-compile', cls, 'compile-extend-compile', k))
+            if pk.has(cls, 'copy'):
+                out.append((c + '.compiled-copy-extend-compile', cls, 'compiled-copy-extend-compile', L // 2))
         if pk.has(cls, 'compose'):
             for k in (range(L + 1) if prop == 'C09' else ((L + 1) // 2,)):
                 out.append((c + '.compose', cls, 'compose', k))
@@ -693,6 +699,19 @@ def make(pk, cls, how, k, N, letters, step, fw=None, structs=None):
         if how == 'compose-compiled':
             step[0] = 'compile'
             pk.compile(a, N)
+        return a
+    if how in ('compile-extend-compile', 'compiled-copy-extend-compile'):
+        a, ga = build(pk, cls, N, letters[:k])
+        step[0] = 'compile'
+        pk.compile(a, N)
+        if how == 'compiled-copy-extend-compile':
+            step[0] = 'copy-compiled'
+            a = a.copy()
+        step[0] = 'take'
+        for l in letters[k:]:
+            a.take(l.mk(pk))
+        step[0] = 'compile'
+        pk.compile(a, N)
         return a
     circ, gates = build(pk, cls, N, letters, on_take=on_take)
     if how == 'after-backward-run':
